@@ -134,9 +134,99 @@ func zzC04(k int, nwords int, T int, mode int, delaymax int) {
 	zzReach("end")
 }
 
+// zzC04FanIn: two producers (r2owa on o0) bonded to the two inputs of ONE consumer; all three programs, the
+// registers and hence the relative speeds are solver variables. Per link the same exactly-once, in-order
+// monitor. mode as in zzC04.
+func zzC04FanIn(nwords int, T int, mode int) {
+	bm := new(Bondmachine)
+	bm.Rsize = 8
+	prods := make([]*procbuilder.Machine, 2)
+	for q := 0; q < 2; q++ {
+		prods[q] = zzPMachine(8, 1, 0, 1, 0, 2, "inc,j,nop,r2owa")
+		zzSymbolicProgram(prods[q], "prog"+strconv.Itoa(q), nwords)
+		bm.Domains = append(bm.Domains, prods[q])
+	}
+	cons := zzPMachine(8, 1, 2, 0, 0, 2, "cpy,i2rw,inc,j,nop")
+	zzSymbolicProgram(cons, "prog2", nwords)
+	bm.Domains = append(bm.Domains, cons)
+	bm.Init()
+	for d := 0; d < 3; d++ {
+		bm.Add_processor(d)
+	}
+	bm.Add_bond([]string{"p2i0", "p0o0"})
+	bm.Add_bond([]string{"p2i1", "p1o0"})
+	vm := new(VM)
+	vm.Bmach = bm
+	vm.Init()
+	vm.Launch_processors(nil)
+	for p := range vm.Processors {
+		for i := range vm.Processors[p].Registers {
+			vm.Processors[p].Registers[i] = zzNondetU8("reg")
+		}
+	}
+	r2owa := zzOpIdx(prods[0], "r2owa")
+	i2rw := zzOpIdx(cons, "i2rw")
+	ob := cons.Opcodes_bits()
+	var sent [2][16]uint8
+	var got [2][16]uint8
+	var ns, ng [2]int
+	lastRetire := [2]int{-100, -100}
+	C := vm.Processors[2]
+	for t := 0; t < T; t++ {
+		var prePc [2]uint64
+		var pid [2]int
+		for q := 0; q < 2; q++ {
+			prePc[q] = vm.Processors[q].Pc
+			pid[q], _ = prods[q].Conproc.Decode_opcode(prods[q].Program.Slocs[prePc[q]])
+		}
+		cpre := C.Pc
+		w := cons.Program.Slocs[cpre]
+		cid, _ := cons.Conproc.Decode_opcode(w)
+		reg, inp := 0, 0
+		if w[ob] == '1' {
+			reg = 1
+		}
+		if w[ob+1] == '1' {
+			inp = 1
+		}
+		if mode == 1 {
+			for q := 0; q < 2; q++ {
+				P := vm.Processors[q]
+				zzAssume(!(pid[q] == r2owa && !P.OutputsValid[0] && C.InputsRecv[q] && t-lastRetire[q] <= 1))
+				zzAssume(!(cid == i2rw && inp == q && P.OutputsValid[0] && C.InputsRecv[q]))
+			}
+		}
+		vm.Step(nil)
+		for q := 0; q < 2; q++ {
+			P := vm.Processors[q]
+			if pid[q] == r2owa && P.Pc != prePc[q] {
+				sent[q][ns[q]] = P.Outputs[0].(uint8)
+				ns[q]++
+				lastRetire[q] = t
+			}
+		}
+		if cid == i2rw && C.Pc != cpre {
+			got[inp][ng[inp]] = C.Registers[reg].(uint8)
+			ng[inp]++
+		}
+		for q := 0; q < 2; q++ {
+			zzAssert("no-loss", ns[q] <= ng[q])
+			zzAssert("no-duplicate", ng[q] <= ns[q]+1)
+			for i := 0; i < T; i++ {
+				if i < ns[q] && i < ng[q] {
+					zzAssert("same-value-in-order", got[q][i] == sent[q][i])
+				}
+			}
+		}
+	}
+	zzReach("end")
+}
+
 func zzDispatch(name string, args []string) {
 	atoi := func(s string) int { v, _ := strconv.Atoi(s); return v }
 	switch name {
+	case "zzC04FanIn":
+		zzC04FanIn(atoi(args[0]), atoi(args[1]), atoi(args[2]))
 	case "zzC04":
 		zzC04(atoi(args[0]), atoi(args[1]), atoi(args[2]), atoi(args[3]), atoi(args[4]))
 	}
